@@ -80,7 +80,7 @@ def run(ctx):
     ctx.rule = ("kick cases as in C02 plus a far-shift stream (|offset| ~ n/2) ; per (case,bunch,row) the plain sum before/after "
                 "apply() on the implementation whenever the theorem's hypotheses (row_ok) or the property's own hypothesis "
                 "(support clear of the border before and after) hold. Non-trivial: interior non-empty support and non-zero offset.")
-    coq = vp_coq.full_check("C01", ctx)
+    coq = vp_coq.full_check("C01", ctx, fams=("kick",))
     nk = 120 if ctx.quick() else 3000
     cases = kc.gen_cases(ctx, nk) + farshift_cases(ctx, 24 if ctx.quick() else 400)
     res = kc.run_cases(ctx, cases)
